@@ -221,6 +221,8 @@ func verdictOf(f func() error) (v string) {
 var loadedSchema, lenientSchema *schema.Schema
 var validatorHung bool
 
+var concurrentTyped int
+
 func (schemaStream) Execute(c Case) {
 	obs := map[string]any{}
 	c["obs"] = obs
@@ -396,6 +398,40 @@ func (schemaStream) Execute(c Case) {
 		if got := verdictOf(func() error { return schema.NopSchema().Validate(s) }); got != "ok" {
 			aux = append(aux, "the no-op schema rejects an in-memory Spec: "+got)
 		}
+		// several goroutines validate in-memory Specs of different sizes at the same time (caches of different
+		// containers refreshing with the schema installed as validator): each verdict is that of its own Spec
+		if concurrentTyped%4 == 0 {
+			var wg sync.WaitGroup
+			var mu sync.Mutex
+			wrong := ""
+			for g := 0; g < 8; g++ {
+				wg.Add(1)
+				go func(g int) {
+					defer wg.Done()
+					mine := &specs.Spec{Version: specs.CurrentVersion, Kind: "vendor.com/class", Devices: []specs.Device{{Name: "d", ContainerEdits: specs.ContainerEdits{Env: []string{"PAD=" + strings.Repeat("p", 17*g*g)}}}}}
+					for i := 0; i < 120; i++ {
+						var got string
+						var want any = "ok"
+						if g%2 == 0 {
+							got = verdictOf(func() error { return b.Validate(mine) })
+						} else {
+							got, want = verdictOf(func() error { return b.Validate(s) }), obs["typed"]
+						}
+						if got != want {
+							mu.Lock()
+							wrong = fmt.Sprintf("Schema.Validate under concurrency gives %s where it gives %v alone", got, want)
+							mu.Unlock()
+							return
+						}
+					}
+				}(g)
+			}
+			wg.Wait()
+			if wrong != "" {
+				aux = append(aux, wrong)
+			}
+		}
+		concurrentTyped++
 		obs["aux"] = aux
 		// files the library writes for it
 		dir := filepath.Join(schemaRoot, "w")
